@@ -12,7 +12,7 @@ pub fn record(seed: u64, tier: &str, out: &str) {
     let thorough = tier == "thorough";
     let mut rng = Rng::new(seed ^ 0xC13);
     let mut t = TraceWriter::create(out);
-    let max_n: usize = if thorough { 4000 } else { 1500 };
+    let max_n: usize = if thorough { 4000 } else { 2000 };
     let mut entries = 0u64;
     for n in 0..=max_n {
         let r = catch(|| {
